@@ -58,12 +58,12 @@ def combine(op, a, b):
 
 
 # ----------------------------------------------------------------------------- C05 membership
-@scenario("C05", [UNION + "._contains", CUT + "._contains", INTER + "._contains"], configs=["union", "cut", "intersection"])
+@scenario("C05", [UNION + "._contains", CUT + "._contains", INTER + "._contains"], configs=["union", "cut", "intersection"], history=True)
 def boolean_contains(S):
     """post: one truth value per row; union = or, cut = and-not, intersection = and of the operand predicates,
     each point with its own parameter row"""
     op = S.cfg
-    A, B, dom = mk_bool(S, op)
+    A, B, dom = S.once(lambda: mk_bool(S, op))
     N = S.int("N", 1)
     X, pts, params, pv = point_rows(S, N)
     res = S.method(dom, "_contains", pts, params).val
@@ -81,15 +81,14 @@ def bd_oracle(op, inA, inB, onA, onB):
     return z3.Or(z3.And(onA, inB), z3.And(onB, inA))
 
 
-@scenario("C05", [UNIONB + "._contains", CUTB + "._contains", INTERB + "._contains"], configs=["union", "cut", "intersection"])
+@scenario("C05", [UNIONB + "._contains", CUTB + "._contains", INTERB + "._contains"], configs=["union", "cut", "intersection"], history=True)
 def boolean_boundary_contains(S):
     """post: boundary membership of a Boolean combination = regularised-CSG formula over the operand predicates
     (pre: operand boundary points belong to the closed operand:  OnBd_X => In_X)"""
     op = S.cfg
-    A, B, dom = mk_bool(S, op)
+    A, B, dom, bd = S.once(lambda: (lambda A, B, dom: (A, B, dom, S.getattr(dom, "boundary")))(*mk_bool(S, op)))
     N = S.int("N", 1)
     X, pts, params, pv = point_rows(S, N)
-    bd = S.getattr(dom, "boundary")
     res = S.method(bd, "_contains", pts, params).val
     S.ensure("one-truth-value-per-row", res.rank == 2 and res.shape[1].is_one and res.dtype == "bool" and res.shape[0].size_term() == zint(N))
 
@@ -103,13 +102,16 @@ def boolean_boundary_contains(S):
     S.forall("regularised-boundary-formula", res, goal)
 
 
-@scenario("C05", [PROD + "._contains", PROD + ".__init__", PROD + "._check_variable_dependencies"], configs=["independent", "a-depends-on-b"])
+@scenario("C05", [PROD + "._contains", PROD + ".__init__", PROD + "._check_variable_dependencies"], configs=["independent", "a-depends-on-b"], history=True)
 def product_contains(S):
     """post: conjunction of the factors; a dependent first factor is judged at the partner point's value"""
     dep = S.cfg == "a-depends-on-b"
-    A = abstract_domain(S, "A", S.new(R2, "x"), {"y": 1, "t": 1} if dep else {"t": 1})
-    B = abstract_domain(S, "B", S.new(R1, "y"), {"t": 1})
-    dom = S.new(PROD, A.obj, B.obj)
+    def build():
+        A = abstract_domain(S, "A", S.new(R2, "x"), {"y": 1, "t": 1} if dep else {"t": 1})
+        B = abstract_domain(S, "B", S.new(R1, "y"), {"t": 1})
+        return A, B, S.new(PROD, A.obj, B.obj)
+
+    A, B, dom = S.once(build)
     S.ensure("dependency-detected", S.getattr(dom, "_is_constant") == (not dep))
     N = S.int("N", 1)
     XY = S.tensor("XY", [N, 3])
@@ -129,19 +131,22 @@ def product_contains(S):
     S.forall("conjunction-of-factors", res, goal)
 
 
-@scenario("C05", [TRANS + "._contains", TRANS + ".__init__"], configs=["fn", "const"])
+@scenario("C05", [TRANS + "._contains", TRANS + ".__init__"], configs=["fn", "const"], history=True)
 def translate_contains(S):
     """post: inverse image  In_D(x - tau(p), p)"""
-    A = abstract_domain(S, "A", S.new(R2, "x"), {"t": 1})
-    if S.cfg == "fn":
-        tau = RowFn("tau", ["t"], 2, {"t": 1})
-        tv = lambda t: tau.value_terms([t])
-        arg = tau
-    else:
-        cs = [S.real("tau0"), S.real("tau1")]
-        tv = lambda t: [c.t for c in cs]
-        arg = list(cs)
-    dom = S.new(TRANS, A.obj, arg)
+    def build():
+        A = abstract_domain(S, "A", S.new(R2, "x"), {"t": 1})
+        if S.cfg == "fn":
+            tau = RowFn("tau", ["t"], 2, {"t": 1})
+            tv = lambda t: tau.value_terms([t])
+            arg = tau
+        else:
+            cs = [S.real("tau0"), S.real("tau1")]
+            tv = lambda t: [c.t for c in cs]
+            arg = list(cs)
+        return A, tv, S.new(TRANS, A.obj, arg)
+
+    A, tv, dom = S.once(build)
     N = S.int("N", 1)
     X, pts, params, pv = point_rows(S, N)
     res = S.method(dom, "_contains", pts, params).val
@@ -155,13 +160,16 @@ def translate_contains(S):
     S.forall("inverse-image-under-the-translation", res, goal)
 
 
-@scenario("C05", [ROT + "._contains", ROT + ".__init__", ROT + ".from_angles", D + "rotate.RotationMatrix2D.__call__"], configs=["angle-fn"])
+@scenario("C05", [ROT + "._contains", ROT + ".__init__", ROT + ".from_angles", D + "rotate.RotationMatrix2D.__call__"], configs=["angle-fn"], history="light")
 def rotate_contains(S):
     """post: inverse image  In_D(R(p)^-1 (x - a(p)) + a(p), p), R the rotation by the (row-wise) angle"""
-    A = abstract_domain(S, "A", S.new(R2, "x"), {"t": 1})
-    ang = RowFn("angle", ["t"], 1, {"t": 1})
-    around = RowFn("around", ["t"], 2, {"t": 1})
-    dom = S.call(S.getattr(S.find(ROT), "from_angles"), A.obj, ang, rotate_around=around)
+    def build():
+        A = abstract_domain(S, "A", S.new(R2, "x"), {"t": 1})
+        ang = RowFn("angle", ["t"], 1, {"t": 1})
+        around = RowFn("around", ["t"], 2, {"t": 1})
+        return A, ang, around, S.call(S.getattr(S.find(ROT), "from_angles"), A.obj, ang, rotate_around=around)
+
+    A, ang, around, dom = S.once(build)
     N = S.int("N", 1)
     X, pts, params, pv = point_rows(S, N)
     res = S.method(dom, "_contains", pts, params).val
